@@ -1077,6 +1077,7 @@ func c04(c *Ctx) {
 	// R6 snapshot complete
 	c.Rule("R6", "E8 fieldcover + provenance", "snapshot() assigns every field of struct snapshot, scalar ones on all paths, each from the like-named span state; a guarded copy reads only what its guard examined", 18)
 	ruleSnapshotComplete(c, ix, "R6")
+	ruleLinkAttrsOwned(c, ix, "R6")
 	// a copy made under a guard reads only what the guard examined: `if len(s.events.queue) > 0 { …; sd.dropped = s.events.droppedCount }`
 	// loses the count whenever the queue is empty (limit 0: everything dropped, nothing queued)
 	if fn := c.Fn(ix, "R6", "(*recordingSpan).snapshot"); fn != nil {
